@@ -5,6 +5,13 @@
   station's balance and energy dispensed, once the events filed so far are deducted. One walk
   through all functions of the control model shows that nothing ever changes these books: every
   change of one of these quantities is filed, once, with exactly the amount of the change.
+
+  Per energy type (`SameT`, `KT`, `KV`): with `elec` the energy type of every installed plug and
+  `kindOf` the powertrain of every vehicle - both read off the initial state, both proved never to
+  change - the electricity and the fuel a station reports as dispensed are each explained by the
+  charge events at its plugs of that type, and no charge event books energy on a vehicle at a
+  plug of the other type (`Clean`), so that the per-type sums over the fleet agree
+  (`fleet_totals_typed`).
 -/
 import Proofs.EnterPost
 import Proofs.Lift
@@ -12,6 +19,10 @@ import Proofs.WorldRun
 import Mathlib.Tactic.Ring
 import Mathlib.Tactic.Linarith
 import Proofs.C04
+import Proofs.Frame
+import Proofs.VStep
+import Proofs.Cosmetic
+import Proofs.Run
 
 namespace Hive
 namespace Books
@@ -50,7 +61,8 @@ end
 /-! ### the books -/
 
 def vehMoney (veh : Vehicle) : Rat × Rat × Rat := (veh.odo, veh.balance, veh.en.gained)
-def stnMoney (st : Station) : Rat × Rat := (st.balance, st.dispE + st.dispG)
+def stnMoney (st : Station) : Rat × Rat × Rat := (st.balance, st.dispE, st.dispG)
+def stnPair (st : Station) : Rat × Rat := (st.balance, st.dispE + st.dispG)
 
 def vehBook (w : World) (u : VehicleId) : Option (Rat × Rat × Rat) :=
   (w.sim.vehicle? u).map fun veh =>
@@ -78,6 +90,12 @@ theorem Quiet.trans {a b c : Sim} (h1 : Quiet a b) (h2 : Quiet b c) : Quiet a c 
 theorem Quiet.of_fields {s s' : Sim} (hv : s'.vehicles = s.vehicles) (hs : s'.stations = s.stations) : Quiet s s' :=
   ⟨fun u => by simp [Sim.vehicle?, hv], fun i => by simp [Sim.station?, hs]⟩
 
+theorem Quiet.pair {s s' : Sim} (h : Quiet s s') (i : StationId) :
+    (s'.station? i).map stnPair = (s.station? i).map stnPair := by
+  have := congrArg (Option.map fun (p : Rat × Rat × Rat) => (p.1, p.2.1 + p.2.2)) (h.stn i)
+  simp only [Option.map_map, Function.comp_def, stnMoney] at this
+  exact this
+
 theorem Same.of_quiet {w w2 : World} (hq : Quiet w.sim w2.sim) (hl : w2.log = w.log) : Same w w2 := by
   refine ⟨fun u => ?_, fun i => ?_⟩
   · have := hq.veh u
@@ -93,8 +111,8 @@ theorem Same.of_quiet {w w2 : World} (hq : Quiet w.sim w2.sim) (hl : w2.log = w.
     rw [hl]
     cases h2 : w2.sim.station? i <;> cases h1 : w.sim.station? i <;> rw [h1, h2] at this <;>
       simp only [Option.map_some, Option.map_none, Option.some.injEq, stnMoney, Prod.mk.injEq, reduceCtorEq] at this ⊢
-    obtain ⟨a, b⟩ := this
-    rw [a, b]
+    obtain ⟨a, b, c⟩ := this
+    rw [a, b, c]
     exact ⟨rfl, rfl⟩
 
 variable {env : Env}
@@ -238,7 +256,7 @@ theorem modifyStation_lookup {s s' : Sim} {st' : Station} (h : s.modifyStation e
 theorem same_of {w w2 : World} {evs : List Event} (hl : w2.log = w.log ++ evs)
     (hv : ∀ u, (w2.sim.vehicle? u).map vehMoney =
       (w.sim.vehicle? u).map fun a => (a.odo + moveKm evs u, a.balance + fares evs u - paid evs u, a.en.gained + charged evs u))
-    (hs : ∀ i, (w2.sim.station? i).map stnMoney =
+    (hs : ∀ i, (w2.sim.station? i).map stnPair =
       (w.sim.station? i).map fun a => (a.balance + received evs i, a.dispE + a.dispG + dispensed evs i)) : Same w w2 := by
   have app : ∀ (f : Event → Rat) (a b : List Event), ((a ++ b).map f).sum = (a.map f).sum + (b.map f).sum := by
     intro f a b; rw [List.map_append, List.sum_append]
@@ -257,7 +275,7 @@ theorem same_of {w w2 : World} {evs : List Event} (hl : w2.log = w.log ++ evs)
     unfold stnBook
     rw [hl]
     cases h2 : w2.sim.station? i <;> cases h1 : w.sim.station? i <;> rw [h1, h2] at this <;>
-      simp only [Option.map_some, Option.map_none, Option.some.injEq, stnMoney, Prod.mk.injEq, reduceCtorEq] at this ⊢
+      simp only [Option.map_some, Option.map_none, Option.some.injEq, stnPair, Prod.mk.injEq, reduceCtorEq] at this ⊢
     obtain ⟨a, b⟩ := this
     rw [a, b]
     unfold received dispensed
@@ -299,7 +317,7 @@ theorem pickUpTrip_same {w w1 : World} {v : VehicleId} {rid : RequestId}
       rw [this]
       cases w.sim.station? i with
       | none => rfl
-      | some a => simp [stnMoney, received, dispensed]
+      | some a => simp [stnPair, received, dispensed]
 
 theorem dropOffTrip_same {w w2 : World} {v : VehicleId} {req : Request}
     (h : dropOffTrip w v req = .ok w2) : Same w w2 := by
@@ -317,7 +335,7 @@ theorem dropOffTrip_same {w w2 : World} {v : VehicleId} {req : Request}
       · intro i
         cases w.sim.station? i with
         | none => rfl
-        | some a => simp [stnMoney, received, dispensed]
+        | some a => simp [stnPair, received, dispensed]
 
 /-! ### `enter`, `transition` -/
 
@@ -580,7 +598,7 @@ theorem move_same (hg : GainEnv env) {w w2 : World} {v : VehicleId} (h : move en
                 rw [this]
                 cases w.sim.station? i with
                 | none => rfl
-                | some a => simp [stnMoney, received, dispensed]
+                | some a => simp [stnPair, received, dispensed]
 
 theorem charge_same (hg : GainEnv env) {w w2 : World} {v : VehicleId} {sid : StationId} {cid : ChargerId}
     (h : charge env w v sid cid = .ok w2) : Same w w2 := by
@@ -634,7 +652,7 @@ theorem charge_same (hg : GainEnv env) {w w2 : World} {v : VehicleId} {sid : Sta
               · next hi =>
                 subst hi
                 rw [hst]
-                simp only [Option.map_some, stnMoney, received, dispensed, List.map_cons, List.map_nil,
+                simp only [Option.map_some, stnPair, received, dispensed, List.map_cons, List.map_nil,
                   List.sum_cons, List.sum_nil, if_true, Option.some.injEq, Prod.mk.injEq]
                 refine ⟨by ring, ?_⟩
                 cases cs.electric <;> simp <;> ring
@@ -644,7 +662,7 @@ theorem charge_same (hg : GainEnv env) {w w2 : World} {v : VehicleId} {sid : Sta
                 | none => rfl
                 | some a =>
                   have : ¬ sid = i := fun e => hi e.symm
-                  simp [stnMoney, received, dispensed, this]
+                  simp [stnPair, received, dispensed, this]
 
 theorem performUpdate_same (hg : GainEnv env) {w w2 : World} {v : VehicleId} {a : Act}
     (h : performUpdate env w v a = .ok w2) : Same w w2 := by
@@ -750,11 +768,11 @@ theorem silent_same {w : World} {s' : Sim} {e : Event} (hq : Quiet w.sim s')
     | some x => simp [vehMoney, a, b, c, d]
   · intro i
     simp only
-    rw [hq.stn i]
+    rw [hq.pair i]
     obtain ⟨a, b⟩ := hr i
     cases w.sim.station? i with
     | none => rfl
-    | some x => simp [stnMoney, a, b]
+    | some x => simp [stnPair, a, b]
 
 theorem addRequest_quiet {s s' : Sim} {r : Request} (h : s.addRequest env r = .ok s') : Quiet s s' := by
   unfold Sim.addRequest at h
@@ -779,9 +797,7 @@ theorem prices_quiet (names : Nat → List StationId) (rd : Timed.Reader Timed.P
     Quiet s (Timed.priceUpdate env names rd s).1 := by
   obtain ⟨hv, _, _, hs⟩ := priceUpdate_only (env := env) names rd s
   refine ⟨fun u => by simp [Sim.vehicle?, hv], fun i => ?_⟩
-  have := congrArg (Option.map fun (p : Rat × Rat × Rat) => (p.1, p.2.1 + p.2.2)) (hs i)
-  simp only [Option.map_map, Function.comp_def] at this
-  exact this
+  exact hs i
 
 theorem drivers_same (tbl : List Shift.Entry) (w : World) : Same w (Shift.driverUpdates env tbl w) := by
   have hd := driverUpdates_only (env := env) tbl w
@@ -962,6 +978,1355 @@ theorem fleet_totals (log : List Event) (vids sids : List Nat) (hv : vids.Nodup)
       have e4 : received (e :: es) = received es := funext fun u => (sums_cons_other e hne es u).2.2.2
       rw [e1, e2, e3, e4, r1, r2, r3, r4]
       cases e <;> first | (exact absurd rfl (hne _ _ _ _ _)) | simp [chargeTotals]
+
+/-! ### per energy type -/
+
+section Typed
+variable (elec : StationId → ChargerId → Bool)
+
+def dispensedE (log : List Event) (i : StationId) : Rat :=
+  (log.map fun | .charge _ s c amount _ => if s = i ∧ elec s c = true then amount else 0 | _ => 0).sum
+def dispensedG (log : List Event) (i : StationId) : Rat :=
+  (log.map fun | .charge _ s c amount _ => if s = i ∧ elec s c = false then amount else 0 | _ => 0).sum
+
+/-- every installed plug has the energy type `elec` says -/
+def Typed (s : Sim) : Prop := ∀ i st, s.station? i = some st → ∀ cs ∈ st.plugs, cs.electric = elec i cs.id
+
+def stnBookT (w : World) (i : StationId) : Option (Rat × Rat) :=
+  (w.sim.station? i).map fun st => (st.dispE - dispensedE elec w.log i, st.dispG - dispensedG elec w.log i)
+
+/-- nothing happened to the per-type books of the stations -/
+def SameT (w w' : World) : Prop := ∀ i, stnBookT elec w' i = stnBookT elec w i
+
+theorem SameT.refl (w : World) : SameT elec w w := fun _ => rfl
+theorem SameT.trans {elec : StationId → ChargerId → Bool} {a b c : World} (h1 : SameT elec a b) (h2 : SameT elec b c) : SameT elec a c :=
+  fun i => (h2 i).trans (h1 i)
+
+/-- the general shape -/
+theorem sameT_of {w w2 : World} {evs : List Event} (hl : w2.log = w.log ++ evs)
+    (hs : ∀ i, (w2.sim.station? i).map (fun a => (a.dispE, a.dispG)) =
+      (w.sim.station? i).map fun a => (a.dispE + dispensedE elec evs i, a.dispG + dispensedG elec evs i)) : SameT elec w w2 := by
+  have app : ∀ (f : Event → Rat) (a b : List Event), ((a ++ b).map f).sum = (a.map f).sum + (b.map f).sum := by
+    intro f a b; rw [List.map_append, List.sum_append]
+  intro i
+  have := hs i
+  unfold stnBookT
+  rw [hl]
+  cases h2 : w2.sim.station? i <;> cases h1 : w.sim.station? i <;> rw [h1, h2] at this <;>
+    simp only [Option.map_some, Option.map_none, Option.some.injEq, Prod.mk.injEq, reduceCtorEq] at this ⊢
+  obtain ⟨a, b⟩ := this
+  rw [a, b]
+  unfold dispensedE dispensedG
+  rw [app, app]
+  refine ⟨by ring, by ring⟩
+
+/-- events other than charge events, stations' dispensed amounts untouched -/
+theorem sameT_plain {w w2 : World} {evs : List Event} (hl : w2.log = w.log ++ evs)
+    (hnc : ∀ e ∈ evs, ∀ v s c a p, e ≠ .charge v s c a p)
+    (hs : ∀ i, (w2.sim.station? i).map stnMoney = (w.sim.station? i).map stnMoney) : SameT elec w w2 := by
+  have zero : ∀ i, dispensedE elec evs i = 0 ∧ dispensedG elec evs i = 0 := by
+    intro i
+    unfold dispensedE dispensedG
+    constructor <;>
+    · apply List.sum_eq_zero
+      intro x hx
+      obtain ⟨e, he, rfl⟩ := List.mem_map.mp hx
+      cases e <;> first | rfl | exact absurd rfl (hnc _ he _ _ _ _ _)
+  refine sameT_of elec hl ?_
+  intro i
+  obtain ⟨z1, z2⟩ := zero i
+  rw [z1, z2]
+  have := congrArg (Option.map fun (p : Rat × Rat × Rat) => (p.2.1, p.2.2)) (hs i)
+  simp only [Option.map_map, Function.comp_def, stnMoney] at this
+  simpa using this
+
+theorem SameT.of_quiet {w w2 : World} (hq : Quiet w.sim w2.sim) (hl : w2.log = w.log) : SameT elec w w2 :=
+  sameT_plain elec (evs := []) (by rw [hl]; simp) (fun e he => by cases he) hq.stn
+
+end Typed
+
+/-! ### the per-type walk -/
+
+section TypedWalk
+variable {elec : StationId → ChargerId → Bool}
+
+theorem typed_of_types {s s' : Sim} (h : ∀ i, (s'.station? i).map (fun st => st.plugs.map fun c => (c.id, c.electric)) = (s.station? i).map fun st => st.plugs.map fun c => (c.id, c.electric))
+    (ht : Typed elec s) : Typed elec s' := by
+  intro i st' hst' cs' hcs'
+  have := h i
+  rw [hst'] at this
+  cases hst : s.station? i with
+  | none => rw [hst] at this; cases this
+  | some st =>
+    rw [hst] at this
+    simp only [Option.map_some, Option.some.injEq] at this
+    have hm : (cs'.id, cs'.electric) ∈ st.plugs.map fun c => (c.id, c.electric) := by
+      rw [← this]; exact List.mem_map_of_mem (f := fun c : ChargerState => (c.id, c.electric)) hcs'
+    obtain ⟨cs, hcs, he⟩ := List.mem_map.mp hm
+    simp only [Prod.mk.injEq] at he
+    rw [← he.1, ← he.2]
+    exact ht i st hst cs hcs
+
+theorem typed_frame {v : VehicleId} {s s' : Sim} (h : Frame v s s') (ht : Typed elec s) : Typed elec s' := by
+  refine typed_of_types (fun i => ?_) ht
+  have := congrArg (Option.map fun (p : Pos × Membership × List (ChargerId × Bool × Nat × Rat × Rat)) => p.2.2.map fun q => (q.1, q.2.1)) (h.stn i)
+  simpa [Option.map_map, Function.comp_def, stnStatic, plugStatic] using this
+
+theorem typed_cosmetic {s s' : Sim} (h : Cosmetic s s') (ht : Typed elec s) : Typed elec s' := by
+  refine typed_of_types (fun i => ?_) ht
+  have := congrArg (Option.map fun (p : StationId × Pos × Membership × List (ChargerId × Bool × Rat × Nat × Nat × Nat) × List ChargerId × Rat × Rat × Rat) => p.2.2.2.1.map fun q => (q.1, q.2.1)) (h.station? i)
+  simpa [Option.map_map, Function.comp_def, stnCore, plugCore] using this
+
+theorem typed_stations {s s' : Sim} (h : s'.stations = s.stations) (ht : Typed elec s) : Typed elec s' :=
+  typed_of_types (fun i => by simp [Sim.station?, h]) ht
+
+/-- a vehicle-only change is quiet for the stations (whatever it does to the vehicle) -/
+theorem vehicleOnly_stations {s s' : Sim} {veh' : Vehicle} (h : s.modifyVehicle env veh' = .ok s') (i : StationId) :
+    s'.station? i = s.station? i := by
+  obtain ⟨_, _, hs, _⟩ := Sim.modifyVehicle_fields h
+  simp [Sim.station?, hs]
+
+theorem vehicleOnly_sameT {w : World} {s : Sim} {veh' : Vehicle} (h : w.sim.modifyVehicle env veh' = .ok s) :
+    SameT elec w { w with sim := s } :=
+  sameT_plain elec (evs := []) (by simp) (fun e he => by cases he) (fun i => by rw [vehicleOnly_stations h i])
+
+theorem pickUpTrip_sameT {w w1 : World} {v : VehicleId} {rid : RequestId}
+    (h : pickUpTrip env w v rid = .ok w1) : SameT elec w w1 := by
+  unfold pickUpTrip at h
+  split at h
+  · cases h
+  · cases h
+  · next veh req hveh hreq =>
+    simp only [Outcome.bind_eq, Outcome.bind_eq_ok, Outcome.pure_eq] at h
+    obtain ⟨s1, h1, s2, h2, h3⟩ := h
+    cases h3
+    obtain ⟨_, _, hs2, _, hv2, _⟩ := Sim.removeRequest_fields h2
+    obtain ⟨_, _, hs1, _⟩ := Sim.modifyVehicle_fields h1
+    refine sameT_plain elec (evs := [Event.pickup v rid req.value ((s1.time - req.departure) % 86400)]) rfl ?_ ?_
+    · intro e he; simp only [List.mem_singleton] at he; subst he; intro _ _ _ _ _ hh; cases hh
+    · intro i
+      have : s2.station? i = w.sim.station? i := by simp [Sim.station?, hs2, hs1]
+      simp only
+      rw [this]
+
+theorem dropOffTrip_sameT {w w2 : World} {v : VehicleId} {req : Request}
+    (h : dropOffTrip w v req = .ok w2) : SameT elec w w2 := by
+  unfold dropOffTrip at h
+  split at h
+  · cases h
+  · split at h
+    · cases h
+    · cases h
+      refine sameT_plain elec (evs := [Event.dropoff v req.id]) rfl ?_ (fun _ => rfl)
+      intro e he; simp only [List.mem_singleton] at he; subst he; intro _ _ _ _ _ hh; cases hh
+
+theorem enter_sameT {w w2 : World} {v : VehicleId} {next : Act}
+    (h : enter env w v next = .ok w2) : SameT elec w w2 := by
+  have q : ∀ {s2 : Sim}, Quiet w.sim s2 → SameT elec w { w with sim := s2 } := fun hq => SameT.of_quiet elec hq rfl
+  cases next <;> simp only [enter] at h
+  case idle d =>
+    simp only [Outcome.bind_eq, Outcome.bind_eq_ok, Outcome.pure_eq] at h
+    obtain ⟨s2, h1, h2⟩ := h
+    cases h2; exact q (applyAct_quiet h1)
+  case outOfService =>
+    simp only [Outcome.bind_eq, Outcome.bind_eq_ok, Outcome.pure_eq] at h
+    obtain ⟨s2, h1, h2⟩ := h
+    cases h2; exact q (applyAct_quiet h1)
+  case repositioning route =>
+    split at h
+    · cases h
+    · split at h
+      · cases h
+      · simp only [Outcome.bind_eq, Outcome.bind_eq_ok, Outcome.pure_eq] at h
+        obtain ⟨s2, h1, h2⟩ := h
+        cases h2; exact q (applyAct_quiet h1)
+  case dispatchBase b route =>
+    split at h
+    · cases h
+    · cases h
+    · split at h
+      · cases h
+      · split at h
+        · cases h
+        · simp only [Outcome.bind_eq, Outcome.bind_eq_ok, Outcome.pure_eq] at h
+          obtain ⟨s2, h1, h2⟩ := h
+          cases h2; exact q (applyAct_quiet h1)
+  case dispatchTrip rid route =>
+    split at h
+    · cases h
+    · split at h
+      · cases h
+      · next req hreq =>
+        split at h
+        · cases h
+        · split at h
+          · cases h
+          · simp only [Outcome.bind_eq, Outcome.bind_eq_ok, Outcome.pure_eq] at h
+            obtain ⟨s1, h0, s2, h1, h2⟩ := h
+            cases h2
+            exact q ((modifyRequest_quiet h0).trans (applyAct_quiet h1))
+  case servicingPooling => cases h
+  case dispatchPooling => cases h
+  case servicingTrip sreq dep route =>
+    split at h
+    · cases h
+    · split at h
+      · cases h
+      · split at h
+        · cases h
+        · split at h
+          · cases h
+          · split at h
+            · cases h
+            · split at h
+              · cases h
+              · simp only [Outcome.bind_eq, Outcome.bind_eq_ok, Outcome.pure_eq] at h
+                obtain ⟨w1, h0, s2, h1, h2⟩ := h
+                cases h2
+                exact (pickUpTrip_sameT h0).trans (SameT.of_quiet elec (w := w1) (w2 := { w1 with sim := s2 }) (applyAct_quiet h1) rfl)
+  case reserveBase b =>
+    split at h
+    · cases h
+    · cases h
+    · next veh base hveh hbase =>
+      split at h
+      · cases h
+      · split at h
+        · cases h
+        · split at h
+          · cases h
+          · next base' hco =>
+            simp only [Outcome.bind_eq, Outcome.bind_eq_ok, Outcome.pure_eq] at h
+            obtain ⟨s1, h0, s2, h1, h2⟩ := h
+            cases h2
+            unfold Base.checkout at hco
+            split at hco
+            · cases hco
+            · cases hco
+              exact q ((modifyBase_quiet h0).trans (applyAct_quiet h1))
+  case chargingStation sid cid =>
+    split at h
+    · cases h
+    · cases h
+    · next veh st hveh hst =>
+      split at h
+      · cases h
+      · split at h
+        · cases h
+        · split at h
+          · cases h
+          · split at h
+            · cases h
+            · split at h
+              · cases h
+              · simp only [Outcome.bind_eq, Outcome.bind_eq_ok, Outcome.pure_eq] at h
+                obtain ⟨st', hco, s1, h0, s2, h1, h2⟩ := h
+                cases h2
+                exact q ((station_step_quiet hst hco h0).trans (applyAct_quiet h1))
+  case dispatchStation sid cid route =>
+    split at h
+    · cases h
+    · cases h
+    · next veh st hveh hst =>
+      split at h
+      · split at h
+        · cases h
+        · split at h
+          · cases h
+          · split at h
+            · cases h
+            · split at h
+              · cases h
+              · simp only [Outcome.bind_eq, Outcome.bind_eq_ok, Outcome.pure_eq] at h
+                obtain ⟨st', hco, s1, h0, s2, h1, h2⟩ := h
+                cases h2
+                exact q ((station_step_quiet hst hco h0).trans (applyAct_quiet h1))
+      · split at h
+        · cases h
+        · split at h
+          · cases h
+          · simp only [Outcome.bind_eq, Outcome.bind_eq_ok, Outcome.pure_eq] at h
+            obtain ⟨s2, h1, h2⟩ := h
+            cases h2; exact q (applyAct_quiet h1)
+  case chargeQueueing sid cid t =>
+    split at h
+    · cases h
+    · cases h
+    · next veh st hveh hst =>
+      split at h
+      · cases h
+      · split at h
+        · cases h
+        · split at h
+          · cases h
+          · split at h
+            · cases h
+            · simp only [Outcome.bind_eq, Outcome.bind_eq_ok, Outcome.pure_eq] at h
+              obtain ⟨st', henq, s1, h0, s2, h1, h2⟩ := h
+              cases h2
+              exact q ((station_step_quiet hst henq h0).trans (applyAct_quiet h1))
+  case chargingBase b cid =>
+    split at h
+    · cases h
+    · cases h
+    · next veh base hveh hbase =>
+      split at h
+      · cases h
+      · next sid hsid =>
+        split at h
+        · cases h
+        · next st hst =>
+          split at h
+          · cases h
+          · split at h
+            · cases h
+            · split at h
+              · cases h
+              · split at h
+                · cases h
+                · split at h
+                  · cases h
+                  · next base' hcob =>
+                    split at h
+                    · cases h
+                    · split at h
+                      · cases h
+                      · simp only [Outcome.bind_eq, Outcome.bind_eq_ok, Outcome.pure_eq] at h
+                        obtain ⟨st', hco, s1, h0, s2, h1, s3, h2, h3⟩ := h
+                        cases h3
+                        unfold Base.checkout at hcob
+                        split at hcob
+                        · cases hcob
+                        · cases hcob
+                          obtain ⟨_, _, hs1, _⟩ := Sim.modifyBase_fields h0
+                          have hst1 : s1.station? sid = some st := by
+                            unfold Sim.station? at *; rw [hs1]; exact hst
+                          exact q (((modifyBase_quiet h0).trans (station_step_quiet hst1 hco h1)).trans (applyAct_quiet h2))
+
+
+
+theorem transition_sameT {w w2 : World} {v : VehicleId} {prev next : Act}
+    (h : transition env w v prev next = .ok w2) : SameT elec w w2 := by
+  unfold transition at h
+  simp only [Outcome.bind_eq, Outcome.bind_eq_ok] at h
+  obtain ⟨s1, h1, h2⟩ := h
+  exact (SameT.of_quiet elec (w := w) (w2 := { w with sim := s1 }) (exit_quiet h1) rfl).trans (enter_sameT h2)
+
+
+theorem modifyVehicle_sameT {w : World} {s : Sim} {veh' old : Vehicle} (h : w.sim.modifyVehicle env veh' = .ok s)
+    (hold : w.sim.vehicle? veh'.id = some old) (hm : vehMoney veh' = vehMoney old) : SameT elec w { w with sim := s } :=
+  SameT.of_quiet elec (modifyVehicle_quiet h hold hm) rfl
+
+theorem move_sameT {w w2 : World} {v : VehicleId} (h : move env w v = .ok w2) : SameT elec w w2 := by
+  unfold move at h
+  split at h
+  · cases h
+  · next veh hveh =>
+    have hid : veh.id = v := (vehicle?_some hveh).2
+    split at h
+    · cases h
+    · split at h
+      · cases h
+      · next route _ =>
+        simp only [Outcome.bind_eq, Outcome.bind_eq_ok, Outcome.pure_eq] at h
+        obtain ⟨tr, htr, h⟩ := h
+        split at h
+        · simp only [Outcome.bind_eq, Outcome.bind_eq_ok, Outcome.pure_eq] at h
+          obtain ⟨s2, h1, h2⟩ := h
+          cases h2
+          exact modifyVehicle_sameT h1 (old := veh) (by simp only; rw [hid]; exact hveh) rfl
+        · split at h
+          · simp only [Outcome.bind_eq, Outcome.bind_eq_ok, Outcome.pure_eq] at h
+            obtain ⟨s2, h1, h2⟩ := h
+            cases h2
+            refine SameT.of_quiet elec ?_ rfl
+            split at h1
+            · next s' hexit => exact (exit_quiet hexit).trans (applyAct_quiet h1)
+            · exact applyAct_quiet h1
+          · split at h
+            · cases h
+            · next last _ =>
+              simp only [Outcome.bind_eq, Outcome.bind_eq_ok, Outcome.pure_eq] at h
+              obtain ⟨s2, h1, h2⟩ := h
+              cases h2
+              obtain ⟨_, _, hs1, _⟩ := Sim.modifyVehicle_fields h1
+              refine sameT_plain elec (evs := [Event.move v tr.km ((env.consume veh tr.experienced).level - veh.en.level)]) rfl ?_ ?_
+              · intro e he; simp only [List.mem_singleton] at he; subst he; intro _ _ _ _ _ hh; cases hh
+              · intro i
+                have : s2.station? i = w.sim.station? i := by simp [Sim.station?, hs1]
+                simp only
+                rw [this]
+
+theorem charge_sameT {w w2 : World} (htyped : Typed elec w.sim) {v : VehicleId} {sid : StationId} {cid : ChargerId}
+    (h : charge env w v sid cid = .ok w2) : SameT elec w w2 := by
+  unfold charge at h
+  split at h
+  · cases h
+  · next st hst =>
+    split at h
+    · cases h
+    · next veh hveh =>
+      have hsid : st.id = sid := (station?_some hst).2
+      split at h
+      · cases h
+      · split at h
+        · cases h
+        · next cs hcs =>
+          split at h
+          · cases h
+          · simp only [Outcome.bind_eq, Outcome.bind_eq_ok, Outcome.pure_eq] at h
+            obtain ⟨s1, h1, s2, h2, h3⟩ := h
+            cases h3
+            obtain ⟨_, _, hs1, _⟩ := Sim.modifyVehicle_fields h1
+            obtain ⟨hmem, hcid⟩ := plug?_some hcs
+            have hel := htyped sid st hst cs hmem
+            rw [hcid] at hel
+            refine sameT_of elec (evs := [Event.charge v sid cid ((env.addEnergy veh cs w.sim.dt).level - veh.en.level)
+              (((env.addEnergy veh cs w.sim.dt).level - veh.en.level) * cs.price)]) rfl ?_
+            intro i
+            simp only
+            rw [modifyStation_lookup h2]
+            simp only [hsid]
+            have hst1 : s1.station? i = w.sim.station? i := by simp [Sim.station?, hs1]
+            split
+            · next hi =>
+              subst hi
+              rw [hst]
+              simp only [Option.map_some, dispensedE, dispensedG, List.map_cons, List.map_nil,
+                List.sum_cons, List.sum_nil, true_and, Option.some.injEq, Prod.mk.injEq, ← hel]
+              cases cs.electric <;> simp
+            · next hi =>
+              rw [hst1]
+              cases w.sim.station? i with
+              | none => rfl
+              | some a =>
+                have : ¬ sid = i := fun e => hi e.symm
+                simp [dispensedE, dispensedG, this]
+
+theorem performUpdate_sameT {w w2 : World} (htyped : Typed elec w.sim) {v : VehicleId} {a : Act}
+    (h : performUpdate env w v a = .ok w2) : SameT elec w w2 := by
+  cases a <;> simp only [performUpdate] at h
+  case idle d =>
+    split at h
+    · cases h
+    · next veh hveh =>
+      split at h
+      · cases h
+      · simp only [Outcome.bind_eq, Outcome.bind_eq_ok, Outcome.pure_eq] at h
+        obtain ⟨s2, h1, h2⟩ := h
+        cases h2
+        exact vehicleOnly_sameT h1
+  case outOfService | reserveBase => cases h; exact SameT.refl elec _
+  case repositioning | dispatchTrip | dispatchStation | dispatchBase => exact move_sameT h
+  case servicingTrip req dep r =>
+    simp only [Outcome.bind_eq, Outcome.bind_eq_ok, Outcome.pure_eq] at h
+    obtain ⟨w1, h1, h2⟩ := h
+    have s1 : SameT elec w w1 := move_sameT h1
+    split at h2
+    · cases h2
+    · split at h2
+      · cases h2; exact s1
+      · split at h2
+        · exact s1.trans (dropOffTrip_sameT h2)
+        · cases h2; exact s1
+      · cases h2; exact s1
+  case chargingStation sid cid => exact charge_sameT htyped h
+  case chargingBase b cid =>
+    split at h
+    · cases h
+    · exact charge_sameT htyped h
+  case chargeQueueing sid cid t =>
+    split at h
+    · cases h
+    · next veh hveh =>
+      split at h
+      · cases h
+      · simp only [Outcome.bind_eq, Outcome.bind_eq_ok, Outcome.pure_eq] at h
+        obtain ⟨s2, h1, h2⟩ := h
+        cases h2
+        exact vehicleOnly_sameT h1
+  case servicingPooling | dispatchPooling => cases h
+
+
+theorem defaultUpdate_sameT {w w2 : World} (hwf : w.sim.WF) (htyped : Typed elec w.sim) {v : VehicleId} {a : Act}
+    (h : defaultUpdate env w v a = .ok w2) : SameT elec w w2 := by
+  unfold defaultUpdate at h
+  split at h
+  · simp only [Outcome.bind_eq, Outcome.bind_eq_ok] at h
+    obtain ⟨next, _, w1, htr, h3⟩ := h
+    split at h3
+    · cases h3
+    · exact (transition_sameT htr).trans (performUpdate_sameT (typed_frame (transition_frame hwf htr) htyped) h3)
+  · exact performUpdate_sameT htyped h
+
+end TypedWalk
+
+/-! ### the per-type books over whole runs -/
+
+section TypedRun
+variable {elec : StationId → ChargerId → Bool}
+
+/-- what a run keeps: well-formed, every plug of the type `elec` says, per-type books untouched -/
+structure KT (elec : StationId → ChargerId → Bool) (w0 w : World) : Prop where
+  wf : w.sim.WF
+  typed : Typed elec w.sim
+  same : SameT elec w0 w
+
+theorem kt_update {w0 w w2 : World} {v : VehicleId} {a : Act} (hk : KT elec w0 w)
+    (h : defaultUpdate env w v a = .ok w2) : KT elec w0 w2 := by
+  obtain ⟨hfr, hid⟩ := defaultUpdate_frame hk.wf h
+  exact ⟨hid.wf hk.wf, typed_frame hfr hk.typed, hk.same.trans (defaultUpdate_sameT hk.wf hk.typed h)⟩
+
+theorem kt_transition {w0 w w2 : World} {v : VehicleId} {prev next : Act} (hk : KT elec w0 w)
+    (h : transition env w v prev next = .ok w2) : KT elec w0 w2 :=
+  ⟨(transition_sameIds hk.wf h).wf hk.wf, typed_frame (transition_frame hk.wf h) hk.typed, hk.same.trans (transition_sameT h)⟩
+
+theorem kt_applied {w0 w : World} (a : List (VehicleId × Instr)) (hk : KT elec w0 w) :
+    KT elec w0 { w with sim := { w.sim with applied := a } } :=
+  ⟨wf_applied a hk.wf, typed_stations rfl hk.typed, hk.same.trans (SameT.of_quiet elec (Quiet.of_fields rfl rfl) rfl)⟩
+
+theorem applyPlans_kt {w0 : World} : ∀ (ps : List (Instr × VehicleId × Act × Act)) {w : World}, KT elec w0 w →
+    KT elec w0 (applyPlans env w ps)
+  | [], _, hk => hk
+  | (i, v, prev, next) :: ps, w, hk => by
+    simp only [applyPlans]
+    split
+    · next w' htr => exact applyPlans_kt ps (kt_applied _ (kt_transition hk htr))
+    · exact applyPlans_kt ps hk
+
+theorem fold_kt {w0 : World} : ∀ (order : List Vehicle) {w : World}, KT elec w0 w →
+    KT elec w0 (order.foldl (fun acc v => stepVehicle env acc v.id v.act) w)
+  | [], _, hk => hk
+  | x :: xs, w, hk => by
+    rw [List.foldl_cons]
+    refine fold_kt xs ?_
+    unfold stepVehicle
+    split
+    · next w' h => exact kt_update hk h
+    · exact hk
+
+theorem kt_phase (hf : ∀ c, env.inFence c = true) {w0 w w' : World} (hk : KT elec w0 w) (h : WPhase env w w') :
+    KT elec w0 w' := by
+  cases h with
+  | instructions is => exact applyPlans_kt _ hk
+  | updates => exact fold_kt _ hk
+  | tick =>
+    exact ⟨⟨hk.wf.veh, hk.wf.stn, hk.wf.base, hk.wf.req, hk.wf.plugs⟩, typed_stations rfl hk.typed,
+      hk.same.trans (SameT.of_quiet elec (Quiet.of_fields rfl rfl) rfl)⟩
+  | @arrival s' r hfresh _ _ hadd =>
+    have hfr : w.sim.request? r.id = none := by
+      cases hq : w.sim.request? r.id with
+      | none => rfl
+      | some x =>
+        exfalso; apply hfresh
+        obtain ⟨hm, hid⟩ := request?_some hq
+        unfold Reqs.ids; rw [← hid]; exact List.mem_map_of_mem hm
+    obtain ⟨_, hs, _⟩ := addRequest_fields hfr hadd
+    refine ⟨addRequest_wf hk.wf hfr hadd, typed_stations hs hk.typed, hk.same.trans ?_⟩
+    refine sameT_plain elec (evs := [Event.addRequest r.id]) rfl ?_ (fun i => by simp [Sim.station?, hs])
+    intro e he; simp only [List.mem_singleton] at he; subst he; intro _ _ _ _ _ hh; cases hh
+  | @cancel s' i hrem =>
+    obtain ⟨_, _, hs, _⟩ := Sim.removeRequest_fields hrem
+    refine ⟨(Sim.removeRequest_sameIds hrem).wf hk.wf, typed_stations hs hk.typed, hk.same.trans ?_⟩
+    refine sameT_plain elec (evs := [Event.cancelRequest i]) rfl ?_ (fun j => by simp [Sim.station?, hs])
+    intro e he; simp only [List.mem_singleton] at he; subst he; intro _ _ _ _ _ hh; cases hh
+  | prices names rd =>
+    have hc := priceUpdate_cosmetic (env := env) names rd w.sim hf hk.wf
+    exact ⟨wf_cosmetic hc hk.wf, typed_cosmetic hc hk.typed, hk.same.trans (SameT.of_quiet elec (prices_quiet names rd w.sim) rfl)⟩
+  | drivers tbl =>
+    have hc := driverUpdates_cosmetic (env := env) tbl w hf hk.wf
+    have hd := driverUpdates_only (env := env) tbl w
+    obtain ⟨evs, hl, hall⟩ := hd.log
+    refine ⟨wf_cosmetic hc hk.wf, typed_cosmetic hc hk.typed, hk.same.trans ?_⟩
+    refine sameT_plain elec hl ?_ (fun i => by simp [Sim.station?, hd.stations])
+    intro e he
+    obtain ⟨v, b, rfl⟩ := hall e he
+    intro _ _ _ _ _ hh; cases hh
+
+/-- **the per-type books never change**: from a well-formed state whose plugs have the types
+    `elec` says, along every history of phases, whatever the instructions -/
+theorem reachable_typed (hf : ∀ c, env.inFence c = true) {w0 w : World} (hwf : w0.sim.WF) (ht : Typed elec w0.sim)
+    (h : WReachable env w0 w) : KT elec w0 w := by
+  induction h with
+  | init => exact ⟨hwf, ht, SameT.refl elec _⟩
+  | step _ hp ih => exact kt_phase hf ih hp
+
+/-- **C05, per energy type, per station**: after any history from an empty log, what a station
+    reports as dispensed electricity is what it had reported at the start plus the amounts of the
+    charge events at its electric plugs, and likewise for fuel - and no plug has changed its type -/
+theorem run_station_typed (hf : ∀ c, env.inFence c = true) {w0 w : World} (hwf : w0.sim.WF) (ht : Typed elec w0.sim)
+    (h0 : w0.log = []) (h : WReachable env w0 w) {i : StationId} {st : Station} (hst : w.sim.station? i = some st) :
+    ∃ st0, w0.sim.station? i = some st0 ∧ st.dispE = st0.dispE + dispensedE elec w.log i ∧
+      st.dispG = st0.dispG + dispensedG elec w.log i ∧ ∀ cs ∈ st.plugs, cs.electric = elec i cs.id := by
+  have hk := reachable_typed hf hwf ht h
+  have := hk.same i
+  unfold stnBookT at this
+  rw [hst, h0] at this
+  cases h1 : w0.sim.station? i with
+  | none => rw [h1] at this; cases this
+  | some st0 =>
+    rw [h1] at this
+    simp only [Option.map_some, Option.some.injEq, Prod.mk.injEq, dispensedE, dispensedG, List.map_nil, List.sum_nil, sub_zero] at this
+    refine ⟨st0, rfl, ?_, ?_, hk.typed i st hst⟩
+    · unfold dispensedE; linarith [this.1]
+    · unfold dispensedG; linarith [this.2]
+
+end TypedRun
+
+/-! ### the vehicle side, per energy type -/
+
+section VehicleTypes
+variable {elec : StationId → ChargerId → Bool} {isE : MechId → Bool} {kindOf : VehicleId → MechId}
+
+/-- every vehicle has the powertrain `kindOf` says -/
+def Meched (kindOf : VehicleId → MechId) (s : Sim) : Prop := ∀ veh ∈ s.vehicles, veh.mech = kindOf veh.id
+
+/-- what the per-type books need from the physics: a plug of the other energy type adds nothing
+    (the model's `add_energy` does: `concrete_typeEnv`) -/
+def TypeEnv (env : Env) (isE : MechId → Bool) : Prop :=
+  ∀ veh cs dt, cs.electric ≠ isE veh.mech → (env.addEnergy veh cs dt).level = veh.en.level
+
+/-- a charge event that books energy of the wrong type for the vehicle -/
+def bad (elec : StationId → ChargerId → Bool) (isE : MechId → Bool) (kindOf : VehicleId → MechId) : Event → Prop
+  | .charge v s c a _ => a ≠ 0 ∧ elec s c ≠ isE (kindOf v)
+  | _ => False
+
+/-- the events filed between `w` and `w'` book no energy of the wrong type -/
+def Right (elec : StationId → ChargerId → Bool) (isE : MechId → Bool) (kindOf : VehicleId → MechId) (w w' : World) : Prop :=
+  ∃ evs, w'.log = w.log ++ evs ∧ ∀ e ∈ evs, ¬ bad elec isE kindOf e
+
+variable (elec isE kindOf) in
+theorem Right.refl (w : World) : Right elec isE kindOf w w := ⟨[], by simp, fun e he => by cases he⟩
+
+theorem Right.trans {a b c : World} (h1 : Right elec isE kindOf a b) (h2 : Right elec isE kindOf b c) : Right elec isE kindOf a c := by
+  obtain ⟨e1, l1, b1⟩ := h1
+  obtain ⟨e2, l2, b2⟩ := h2
+  refine ⟨e1 ++ e2, by rw [l2, l1, List.append_assoc], ?_⟩
+  intro e he
+  rcases List.mem_append.mp he with h | h
+  · exact b1 e h
+  · exact b2 e h
+
+variable (elec isE kindOf) in
+theorem Right.of_quiet {w w2 : World} (_hq : Quiet w.sim w2.sim) (hl : w2.log = w.log) : Right elec isE kindOf w w2 :=
+  ⟨[], by rw [hl]; simp, fun e he => by cases he⟩
+
+variable (elec isE kindOf) in
+theorem right_plain {w w2 : World} {evs : List Event} (hl : w2.log = w.log ++ evs)
+    (hnc : ∀ e ∈ evs, ∀ v s c a p, e ≠ .charge v s c a p)
+    (_hs : ∀ i, (w2.sim.station? i).map stnMoney = (w.sim.station? i).map stnMoney) : Right elec isE kindOf w w2 := by
+  refine ⟨evs, hl, ?_⟩
+  intro e he hb
+  cases e <;> first | exact hb | exact hnc _ he _ _ _ _ _ rfl
+
+theorem vehicleOnly_right {w : World} {s : Sim} {veh' : Vehicle} (h : w.sim.modifyVehicle env veh' = .ok s) :
+    Right elec isE kindOf w { w with sim := s } :=
+  right_plain elec isE kindOf (evs := []) (by simp) (fun e he => by cases he) (fun i => by rw [vehicleOnly_stations h i])
+
+
+theorem pickUpTrip_right {w w1 : World} {v : VehicleId} {rid : RequestId}
+    (h : pickUpTrip env w v rid = .ok w1) : Right elec isE kindOf w w1 := by
+  unfold pickUpTrip at h
+  split at h
+  · cases h
+  · cases h
+  · next veh req hveh hreq =>
+    simp only [Outcome.bind_eq, Outcome.bind_eq_ok, Outcome.pure_eq] at h
+    obtain ⟨s1, h1, s2, h2, h3⟩ := h
+    cases h3
+    obtain ⟨_, _, hs2, _, hv2, _⟩ := Sim.removeRequest_fields h2
+    obtain ⟨_, _, hs1, _⟩ := Sim.modifyVehicle_fields h1
+    refine right_plain elec isE kindOf (evs := [Event.pickup v rid req.value ((s1.time - req.departure) % 86400)]) rfl ?_ ?_
+    · intro e he; simp only [List.mem_singleton] at he; subst he; intro _ _ _ _ _ hh; cases hh
+    · intro i
+      have : s2.station? i = w.sim.station? i := by simp [Sim.station?, hs2, hs1]
+      simp only
+      rw [this]
+
+
+theorem dropOffTrip_right {w w2 : World} {v : VehicleId} {req : Request}
+    (h : dropOffTrip w v req = .ok w2) : Right elec isE kindOf w w2 := by
+  unfold dropOffTrip at h
+  split at h
+  · cases h
+  · split at h
+    · cases h
+    · cases h
+      refine right_plain elec isE kindOf (evs := [Event.dropoff v req.id]) rfl ?_ (fun _ => rfl)
+      intro e he; simp only [List.mem_singleton] at he; subst he; intro _ _ _ _ _ hh; cases hh
+
+
+theorem enter_right {w w2 : World} {v : VehicleId} {next : Act}
+    (h : enter env w v next = .ok w2) : Right elec isE kindOf w w2 := by
+  have q : ∀ {s2 : Sim}, Quiet w.sim s2 → Right elec isE kindOf w { w with sim := s2 } := fun hq => Right.of_quiet elec isE kindOf hq rfl
+  cases next <;> simp only [enter] at h
+  case idle d =>
+    simp only [Outcome.bind_eq, Outcome.bind_eq_ok, Outcome.pure_eq] at h
+    obtain ⟨s2, h1, h2⟩ := h
+    cases h2; exact q (applyAct_quiet h1)
+  case outOfService =>
+    simp only [Outcome.bind_eq, Outcome.bind_eq_ok, Outcome.pure_eq] at h
+    obtain ⟨s2, h1, h2⟩ := h
+    cases h2; exact q (applyAct_quiet h1)
+  case repositioning route =>
+    split at h
+    · cases h
+    · split at h
+      · cases h
+      · simp only [Outcome.bind_eq, Outcome.bind_eq_ok, Outcome.pure_eq] at h
+        obtain ⟨s2, h1, h2⟩ := h
+        cases h2; exact q (applyAct_quiet h1)
+  case dispatchBase b route =>
+    split at h
+    · cases h
+    · cases h
+    · split at h
+      · cases h
+      · split at h
+        · cases h
+        · simp only [Outcome.bind_eq, Outcome.bind_eq_ok, Outcome.pure_eq] at h
+          obtain ⟨s2, h1, h2⟩ := h
+          cases h2; exact q (applyAct_quiet h1)
+  case dispatchTrip rid route =>
+    split at h
+    · cases h
+    · split at h
+      · cases h
+      · next req hreq =>
+        split at h
+        · cases h
+        · split at h
+          · cases h
+          · simp only [Outcome.bind_eq, Outcome.bind_eq_ok, Outcome.pure_eq] at h
+            obtain ⟨s1, h0, s2, h1, h2⟩ := h
+            cases h2
+            exact q ((modifyRequest_quiet h0).trans (applyAct_quiet h1))
+  case servicingPooling => cases h
+  case dispatchPooling => cases h
+  case servicingTrip sreq dep route =>
+    split at h
+    · cases h
+    · split at h
+      · cases h
+      · split at h
+        · cases h
+        · split at h
+          · cases h
+          · split at h
+            · cases h
+            · split at h
+              · cases h
+              · simp only [Outcome.bind_eq, Outcome.bind_eq_ok, Outcome.pure_eq] at h
+                obtain ⟨w1, h0, s2, h1, h2⟩ := h
+                cases h2
+                exact (pickUpTrip_right h0).trans (Right.of_quiet elec isE kindOf (w := w1) (w2 := { w1 with sim := s2 }) (applyAct_quiet h1) rfl)
+  case reserveBase b =>
+    split at h
+    · cases h
+    · cases h
+    · next veh base hveh hbase =>
+      split at h
+      · cases h
+      · split at h
+        · cases h
+        · split at h
+          · cases h
+          · next base' hco =>
+            simp only [Outcome.bind_eq, Outcome.bind_eq_ok, Outcome.pure_eq] at h
+            obtain ⟨s1, h0, s2, h1, h2⟩ := h
+            cases h2
+            unfold Base.checkout at hco
+            split at hco
+            · cases hco
+            · cases hco
+              exact q ((modifyBase_quiet h0).trans (applyAct_quiet h1))
+  case chargingStation sid cid =>
+    split at h
+    · cases h
+    · cases h
+    · next veh st hveh hst =>
+      split at h
+      · cases h
+      · split at h
+        · cases h
+        · split at h
+          · cases h
+          · split at h
+            · cases h
+            · split at h
+              · cases h
+              · simp only [Outcome.bind_eq, Outcome.bind_eq_ok, Outcome.pure_eq] at h
+                obtain ⟨st', hco, s1, h0, s2, h1, h2⟩ := h
+                cases h2
+                exact q ((station_step_quiet hst hco h0).trans (applyAct_quiet h1))
+  case dispatchStation sid cid route =>
+    split at h
+    · cases h
+    · cases h
+    · next veh st hveh hst =>
+      split at h
+      · split at h
+        · cases h
+        · split at h
+          · cases h
+          · split at h
+            · cases h
+            · split at h
+              · cases h
+              · simp only [Outcome.bind_eq, Outcome.bind_eq_ok, Outcome.pure_eq] at h
+                obtain ⟨st', hco, s1, h0, s2, h1, h2⟩ := h
+                cases h2
+                exact q ((station_step_quiet hst hco h0).trans (applyAct_quiet h1))
+      · split at h
+        · cases h
+        · split at h
+          · cases h
+          · simp only [Outcome.bind_eq, Outcome.bind_eq_ok, Outcome.pure_eq] at h
+            obtain ⟨s2, h1, h2⟩ := h
+            cases h2; exact q (applyAct_quiet h1)
+  case chargeQueueing sid cid t =>
+    split at h
+    · cases h
+    · cases h
+    · next veh st hveh hst =>
+      split at h
+      · cases h
+      · split at h
+        · cases h
+        · split at h
+          · cases h
+          · split at h
+            · cases h
+            · simp only [Outcome.bind_eq, Outcome.bind_eq_ok, Outcome.pure_eq] at h
+              obtain ⟨st', henq, s1, h0, s2, h1, h2⟩ := h
+              cases h2
+              exact q ((station_step_quiet hst henq h0).trans (applyAct_quiet h1))
+  case chargingBase b cid =>
+    split at h
+    · cases h
+    · cases h
+    · next veh base hveh hbase =>
+      split at h
+      · cases h
+      · next sid hsid =>
+        split at h
+        · cases h
+        · next st hst =>
+          split at h
+          · cases h
+          · split at h
+            · cases h
+            · split at h
+              · cases h
+              · split at h
+                · cases h
+                · split at h
+                  · cases h
+                  · next base' hcob =>
+                    split at h
+                    · cases h
+                    · split at h
+                      · cases h
+                      · simp only [Outcome.bind_eq, Outcome.bind_eq_ok, Outcome.pure_eq] at h
+                        obtain ⟨st', hco, s1, h0, s2, h1, s3, h2, h3⟩ := h
+                        cases h3
+                        unfold Base.checkout at hcob
+                        split at hcob
+                        · cases hcob
+                        · cases hcob
+                          obtain ⟨_, _, hs1, _⟩ := Sim.modifyBase_fields h0
+                          have hst1 : s1.station? sid = some st := by
+                            unfold Sim.station? at *; rw [hs1]; exact hst
+                          exact q (((modifyBase_quiet h0).trans (station_step_quiet hst1 hco h1)).trans (applyAct_quiet h2))
+
+
+
+
+theorem transition_right {w w2 : World} {v : VehicleId} {prev next : Act}
+    (h : transition env w v prev next = .ok w2) : Right elec isE kindOf w w2 := by
+  unfold transition at h
+  simp only [Outcome.bind_eq, Outcome.bind_eq_ok] at h
+  obtain ⟨s1, h1, h2⟩ := h
+  exact (Right.of_quiet elec isE kindOf (w := w) (w2 := { w with sim := s1 }) (exit_quiet h1) rfl).trans (enter_right h2)
+
+
+
+theorem modifyVehicle_right {w : World} {s : Sim} {veh' old : Vehicle} (h : w.sim.modifyVehicle env veh' = .ok s)
+    (hold : w.sim.vehicle? veh'.id = some old) (hm : vehMoney veh' = vehMoney old) : Right elec isE kindOf w { w with sim := s } :=
+  Right.of_quiet elec isE kindOf (modifyVehicle_quiet h hold hm) rfl
+
+
+theorem move_right {w w2 : World} {v : VehicleId} (h : move env w v = .ok w2) : Right elec isE kindOf w w2 := by
+  unfold move at h
+  split at h
+  · cases h
+  · next veh hveh =>
+    have hid : veh.id = v := (vehicle?_some hveh).2
+    split at h
+    · cases h
+    · split at h
+      · cases h
+      · next route _ =>
+        simp only [Outcome.bind_eq, Outcome.bind_eq_ok, Outcome.pure_eq] at h
+        obtain ⟨tr, htr, h⟩ := h
+        split at h
+        · simp only [Outcome.bind_eq, Outcome.bind_eq_ok, Outcome.pure_eq] at h
+          obtain ⟨s2, h1, h2⟩ := h
+          cases h2
+          exact modifyVehicle_right h1 (old := veh) (by simp only; rw [hid]; exact hveh) rfl
+        · split at h
+          · simp only [Outcome.bind_eq, Outcome.bind_eq_ok, Outcome.pure_eq] at h
+            obtain ⟨s2, h1, h2⟩ := h
+            cases h2
+            refine Right.of_quiet elec isE kindOf ?_ rfl
+            split at h1
+            · next s' hexit => exact (exit_quiet hexit).trans (applyAct_quiet h1)
+            · exact applyAct_quiet h1
+          · split at h
+            · cases h
+            · next last _ =>
+              simp only [Outcome.bind_eq, Outcome.bind_eq_ok, Outcome.pure_eq] at h
+              obtain ⟨s2, h1, h2⟩ := h
+              cases h2
+              obtain ⟨_, _, hs1, _⟩ := Sim.modifyVehicle_fields h1
+              refine right_plain elec isE kindOf (evs := [Event.move v tr.km ((env.consume veh tr.experienced).level - veh.en.level)]) rfl ?_ ?_
+              · intro e he; simp only [List.mem_singleton] at he; subst he; intro _ _ _ _ _ hh; cases hh
+              · intro i
+                have : s2.station? i = w.sim.station? i := by simp [Sim.station?, hs1]
+                simp only
+                rw [this]
+
+
+theorem charge_right {w w2 : World} (hte : TypeEnv env isE) (htyped : Typed elec w.sim) (hm : Meched kindOf w.sim)
+    {v : VehicleId} {sid : StationId} {cid : ChargerId}
+    (h : charge env w v sid cid = .ok w2) : Right elec isE kindOf w w2 := by
+  unfold charge at h
+  split at h
+  · cases h
+  · next st hst =>
+    split at h
+    · cases h
+    · next veh hveh =>
+      split at h
+      · cases h
+      · split at h
+        · cases h
+        · next cs hcs =>
+          split at h
+          · cases h
+          · simp only [Outcome.bind_eq, Outcome.bind_eq_ok, Outcome.pure_eq] at h
+            obtain ⟨s1, h1, s2, h2, h3⟩ := h
+            cases h3
+            obtain ⟨hmem, hcid⟩ := plug?_some hcs
+            have hel := htyped sid st hst cs hmem
+            rw [hcid] at hel
+            obtain ⟨hvm, hvid⟩ := vehicle?_some hveh
+            have hmech := hm veh hvm
+            rw [hvid] at hmech
+            refine ⟨[_], rfl, ?_⟩
+            intro e he
+            simp only [List.mem_singleton] at he
+            subst he
+            intro hb
+            obtain ⟨hne, hty⟩ := hb
+            apply hne
+            have := hte veh cs w.sim.dt (by rw [hel, hmech]; exact hty)
+            rw [this]; ring
+
+theorem performUpdate_right {w w2 : World} (hte : TypeEnv env isE) (htyped : Typed elec w.sim) (hm : Meched kindOf w.sim) {v : VehicleId} {a : Act}
+    (h : performUpdate env w v a = .ok w2) : Right elec isE kindOf w w2 := by
+  cases a <;> simp only [performUpdate] at h
+  case idle d =>
+    split at h
+    · cases h
+    · next veh hveh =>
+      split at h
+      · cases h
+      · simp only [Outcome.bind_eq, Outcome.bind_eq_ok, Outcome.pure_eq] at h
+        obtain ⟨s2, h1, h2⟩ := h
+        cases h2
+        exact vehicleOnly_right h1
+  case outOfService | reserveBase => cases h; exact Right.refl elec isE kindOf _
+  case repositioning | dispatchTrip | dispatchStation | dispatchBase => exact move_right h
+  case servicingTrip req dep r =>
+    simp only [Outcome.bind_eq, Outcome.bind_eq_ok, Outcome.pure_eq] at h
+    obtain ⟨w1, h1, h2⟩ := h
+    have s1 : Right elec isE kindOf w w1 := move_right h1
+    split at h2
+    · cases h2
+    · split at h2
+      · cases h2; exact s1
+      · split at h2
+        · exact s1.trans (dropOffTrip_right h2)
+        · cases h2; exact s1
+      · cases h2; exact s1
+  case chargingStation sid cid => exact charge_right hte htyped hm h
+  case chargingBase b cid =>
+    split at h
+    · cases h
+    · exact charge_right hte htyped hm h
+  case chargeQueueing sid cid t =>
+    split at h
+    · cases h
+    · next veh hveh =>
+      split at h
+      · cases h
+      · simp only [Outcome.bind_eq, Outcome.bind_eq_ok, Outcome.pure_eq] at h
+        obtain ⟨s2, h1, h2⟩ := h
+        cases h2
+        exact vehicleOnly_right h1
+  case servicingPooling | dispatchPooling => cases h
+
+
+
+theorem defaultUpdate_right {w w2 : World} (hte : TypeEnv env isE) (hwf : w.sim.WF) (htyped : Typed elec w.sim)
+    (hm : Meched kindOf w.sim) {v : VehicleId} {a : Act}
+    (hm1 : ∀ {w1 : World} {next : Act}, transition env w v a next = .ok w1 → Meched kindOf w1.sim)
+    (h : defaultUpdate env w v a = .ok w2) : Right elec isE kindOf w w2 := by
+  unfold defaultUpdate at h
+  split at h
+  · simp only [Outcome.bind_eq, Outcome.bind_eq_ok] at h
+    obtain ⟨next, _, w1, htr, h3⟩ := h
+    split at h3
+    · cases h3
+    · exact (transition_right htr).trans (performUpdate_right hte (typed_frame (transition_frame hwf htr) htyped) (hm1 htr) h3)
+  · exact performUpdate_right hte htyped hm h
+
+end VehicleTypes
+
+/-! ### the vehicle side over whole runs -/
+
+section VehicleRun
+variable {elec : StationId → ChargerId → Bool} {isE : MechId → Bool} {kindOf : VehicleId → MechId}
+
+theorem meched_vstep {dt : Nat} {a b : Vehicle} (h : VStep env (fun _ => True) dt a b) (ha : a.mech = kindOf a.id) :
+    b.mech = kindOf b.id := by
+  cases h <;> exact ha
+
+theorem transition_exists {w w2 : World} {v : VehicleId} {prev next : Act} (h : transition env w v prev next = .ok w2) :
+    ∃ old, w.sim.vehicle? v = some old := by
+  unfold transition at h
+  simp only [Outcome.bind_eq, Outcome.bind_eq_ok] at h
+  obtain ⟨s1, h1, h2⟩ := h
+  obtain ⟨old, _, ho, _⟩ := enter_post h2
+  rw [vehicle?_congr (exit_frame h1).1] at ho
+  exact ⟨old, ho⟩
+
+theorem transition_meched {w w2 : World} {v : VehicleId} {prev next : Act} (hwf : w.sim.WF) (hm : Meched kindOf w.sim)
+    (h : transition env w v prev next = .ok w2) : Meched kindOf w2.sim := by
+  obtain ⟨old, hveh⟩ := transition_exists h
+  exact all_of_vsteps (allowed := fun _ => True) (P := fun veh => veh.mech = kindOf veh.id) (dt := w.sim.dt)
+    (fun a b hs ha => meched_vstep hs ha) hwf ((transition_sameIds hwf h).wf hwf) (transition_frame hwf h) hveh
+    (vs_transition hveh h) hm
+
+theorem defaultUpdate_meched {w w2 : World} {v : VehicleId} {old : Vehicle} (hwf : w.sim.WF) (hm : Meched kindOf w.sim)
+    (hveh : w.sim.vehicle? v = some old) (h : defaultUpdate env w v old.act = .ok w2) : Meched kindOf w2.sim := by
+  obtain ⟨hfr, hid⟩ := defaultUpdate_frame hwf h
+  exact all_of_vsteps (allowed := fun _ => True) (P := fun veh => veh.mech = kindOf veh.id) (dt := w.sim.dt)
+    (fun a b hs ha => meched_vstep hs ha) hwf (hid.wf hwf) hfr hveh
+    (vs_defaultUpdate hwf (fun _ _ _ _ => trivial) (fun _ _ _ _ _ => trivial) hveh h) hm
+
+/-- what a run keeps on the vehicle side -/
+structure KV (elec : StationId → ChargerId → Bool) (isE : MechId → Bool) (kindOf : VehicleId → MechId) (w0 w : World) : Prop where
+  kt : KT elec w0 w
+  meched : Meched kindOf w.sim
+  right : Right elec isE kindOf w0 w
+
+theorem kv_update (hte : TypeEnv env isE) {w0 w w2 : World} {v : VehicleId} {veh : Vehicle} (hk : KV elec isE kindOf w0 w)
+    (hveh : w.sim.vehicle? v = some veh) (h : defaultUpdate env w v veh.act = .ok w2) : KV elec isE kindOf w0 w2 :=
+  ⟨kt_update hk.kt h, defaultUpdate_meched hk.kt.wf hk.meched hveh h,
+    hk.right.trans (defaultUpdate_right hte hk.kt.wf hk.kt.typed hk.meched (fun htr => transition_meched hk.kt.wf hk.meched htr) h)⟩
+
+theorem kv_transition {w0 w w2 : World} {v : VehicleId} {prev next : Act} (hk : KV elec isE kindOf w0 w)
+    (h : transition env w v prev next = .ok w2) : KV elec isE kindOf w0 w2 :=
+  ⟨kt_transition hk.kt h, transition_meched hk.kt.wf hk.meched h, hk.right.trans (transition_right h)⟩
+
+theorem kv_applied {w0 w : World} (a : List (VehicleId × Instr)) (hk : KV elec isE kindOf w0 w) :
+    KV elec isE kindOf w0 { w with sim := { w.sim with applied := a } } :=
+  ⟨kt_applied a hk.kt, hk.meched, hk.right.trans (Right.of_quiet elec isE kindOf (Quiet.of_fields rfl rfl) rfl)⟩
+
+theorem applyPlans_kv {w0 : World} : ∀ (ps : List (Instr × VehicleId × Act × Act)) {w : World}, KV elec isE kindOf w0 w →
+    KV elec isE kindOf w0 (applyPlans env w ps)
+  | [], _, hk => hk
+  | (i, v, prev, next) :: ps, w, hk => by
+    simp only [applyPlans]
+    split
+    · next w' htr => exact applyPlans_kv ps (kv_applied _ (kv_transition hk htr))
+    · exact applyPlans_kv ps hk
+
+theorem fold_kv (hte : TypeEnv env isE) {w0 : World} {order : List Vehicle} :
+    ∀ {w : World}, KV elec isE kindOf w0 w → (order.map Vehicle.id).Nodup →
+      (∀ x ∈ order, ∃ veh, w.sim.vehicle? x.id = some veh ∧ veh.act = x.act) →
+      KV elec isE kindOf w0 (order.foldl (fun acc v => stepVehicle env acc v.id v.act) w) := by
+  induction order with
+  | nil => intro w hk _ _; exact hk
+  | cons x xs ih =>
+    intro w hk hnd hall
+    simp only [List.foldl_cons]
+    simp only [List.map_cons, List.nodup_cons] at hnd
+    have hrest : ∀ y ∈ xs, ∃ veh, w.sim.vehicle? y.id = some veh ∧ veh.act = y.act :=
+      fun y hy => hall y (List.mem_cons_of_mem _ hy)
+    rcases stepVehicle_cases (env := env) w x.id x.act with heq | hok
+    · rw [heq]; exact ih hk hnd.2 hrest
+    · obtain ⟨veh, hveh, hact⟩ := hall x List.mem_cons_self
+      rw [← hact] at hok
+      have hk' := kv_update hte hk hveh hok
+      obtain ⟨hfr, _⟩ := defaultUpdate_frame hk.kt.wf hok
+      rw [hact] at hk' hfr
+      refine ih hk' hnd.2 ?_
+      intro y hy
+      obtain ⟨vy, h1, h2⟩ := hrest y hy
+      have hne : y.id ≠ x.id := by
+        intro heq
+        apply hnd.1
+        rw [← heq]
+        exact List.mem_map_of_mem hy
+      exact ⟨vy, by rw [hfr.others y.id hne]; exact h1, h2⟩
+
+theorem vehicleUpdates_kv (hte : TypeEnv env isE) {w0 w : World} (hk : KV elec isE kindOf w0 w) :
+    KV elec isE kindOf w0 (vehicleUpdates env w) := by
+  unfold vehicleUpdates
+  have hp := updateOrder_perm w.sim.vehicles
+  refine fold_kv hte hk ?_ ?_
+  · exact (List.Perm.nodup_iff (hp.map Vehicle.id)).mpr hk.kt.wf.veh
+  · intro x hx
+    have hx' : x ∈ w.sim.vehicles := hp.mem_iff.mp hx
+    exact ⟨x, lookup_of_mem hk.kt.wf.veh hx', rfl⟩
+
+theorem meched_cosmetic {s s' : Sim} (h : Cosmetic s s') (hwf' : s'.WF) (hm : Meched kindOf s) : Meched kindOf s' := by
+  intro veh' hmem
+  have hl : s'.vehicle? veh'.id = some veh' := lookup_of_mem hwf'.veh hmem
+  have := h.vehicle? veh'.id
+  rw [hl] at this
+  cases ho : s.vehicle? veh'.id with
+  | none => rw [ho] at this; cases this
+  | some old =>
+    rw [ho] at this
+    simp only [Option.map_some, Option.some.injEq] at this
+    obtain ⟨hid, _, _, hmech, _⟩ := vehCore_fields this
+    rw [hmech, hid]
+    exact hm old (vehicle?_some ho).1
+
+theorem kv_phase (hte : TypeEnv env isE) (hf : ∀ c, env.inFence c = true) {w0 w w' : World} (hk : KV elec isE kindOf w0 w)
+    (h : WPhase env w w') : KV elec isE kindOf w0 w' := by
+  have hkt := kt_phase hf hk.kt h
+  cases h with
+  | instructions is => exact applyPlans_kv _ hk
+  | updates => exact vehicleUpdates_kv hte hk
+  | tick => exact ⟨hkt, hk.meched, hk.right.trans (Right.of_quiet elec isE kindOf (Quiet.of_fields rfl rfl) rfl)⟩
+  | @arrival s' r hfresh _ _ hadd =>
+    have hfr : w.sim.request? r.id = none := by
+      cases hq : w.sim.request? r.id with
+      | none => rfl
+      | some x =>
+        exfalso; apply hfresh
+        obtain ⟨hm, hid⟩ := request?_some hq
+        unfold Reqs.ids; rw [← hid]; exact List.mem_map_of_mem hm
+    obtain ⟨hv, _⟩ := addRequest_fields hfr hadd
+    refine ⟨hkt, by intro veh hm; rw [hv] at hm; exact hk.meched veh hm, hk.right.trans ⟨[Event.addRequest r.id], rfl, ?_⟩⟩
+    intro e he; simp only [List.mem_singleton] at he; subst he; exact id
+  | @cancel s' i hrem =>
+    obtain ⟨_, _, _, _, hv, _⟩ := Sim.removeRequest_fields hrem
+    refine ⟨hkt, by intro veh hm; rw [hv] at hm; exact hk.meched veh hm, hk.right.trans ⟨[Event.cancelRequest i], rfl, ?_⟩⟩
+    intro e he; simp only [List.mem_singleton] at he; subst he; exact id
+  | prices names rd =>
+    have hc := priceUpdate_cosmetic (env := env) names rd w.sim hf hk.kt.wf
+    exact ⟨hkt, meched_cosmetic hc hkt.wf hk.meched, hk.right.trans (Right.of_quiet elec isE kindOf (prices_quiet names rd w.sim) rfl)⟩
+  | drivers tbl =>
+    have hc := driverUpdates_cosmetic (env := env) tbl w hf hk.kt.wf
+    have hd := driverUpdates_only (env := env) tbl w
+    obtain ⟨evs, hl, hall⟩ := hd.log
+    refine ⟨hkt, meched_cosmetic hc hkt.wf hk.meched, hk.right.trans ⟨evs, hl, ?_⟩⟩
+    intro e he
+    obtain ⟨v, b, rfl⟩ := hall e he
+    exact id
+
+/-- **no run books energy of the wrong type on a vehicle**: from a well-formed state whose plugs
+    and vehicles have the types `elec`, `kindOf` say, along every history of phases -/
+theorem reachable_kv (hte : TypeEnv env isE) (hf : ∀ c, env.inFence c = true) {w0 w : World} (hwf : w0.sim.WF)
+    (ht : Typed elec w0.sim) (hm : Meched kindOf w0.sim) (h : WReachable env w0 w) : KV elec isE kindOf w0 w := by
+  induction h with
+  | init => exact ⟨⟨hwf, ht, SameT.refl elec _⟩, hm, Right.refl elec isE kindOf _⟩
+  | step _ hp ih => exact kv_phase hte hf ih hp
+
+end VehicleRun
+
+/-! ### per-type totals -/
+
+section TypedTotals
+variable {elec : StationId → ChargerId → Bool} {isE : MechId → Bool} {kindOf : VehicleId → MechId}
+
+/-- the charge events at plugs of energy type `b` (`true`: electricity) -/
+def ofType (elec : StationId → ChargerId → Bool) (b : Bool) (log : List Event) : List Event :=
+  log.filter fun | .charge _ s c _ _ => elec s c == b | _ => false
+
+theorem dispensedE_ofType (log : List Event) (i : StationId) :
+    dispensedE elec log i = dispensed (ofType elec true log) i ∧ dispensedG elec log i = dispensed (ofType elec false log) i := by
+  induction log with
+  | nil => exact ⟨rfl, rfl⟩
+  | cons e es ih =>
+    obtain ⟨i1, i2⟩ := ih
+    unfold dispensedE dispensedG dispensed ofType at *
+    cases e <;> simp only [List.map_cons, List.sum_cons, List.filter_cons] <;> try (simp only [Bool.false_eq_true, if_false, zero_add]; exact ⟨i1, i2⟩)
+    next v s c a p =>
+      by_cases hs : s = i
+      · subst hs
+        by_cases hel : elec s c = true <;> simp [hel, i1, i2]
+      · by_cases hel : elec s c = true <;> simp [hel, hs, i1, i2]
+
+/-- clean log: no event books energy of the wrong type on a vehicle -/
+def Clean (elec : StationId → ChargerId → Bool) (isE : MechId → Bool) (kindOf : VehicleId → MechId) (log : List Event) : Prop :=
+  ∀ e ∈ log, ¬ bad elec isE kindOf e
+
+/-- on a clean log a vehicle's charged energy is what it charged at plugs of its own type,
+    and it charged nothing at plugs of the other type -/
+theorem charged_ofType : ∀ (log : List Event), Clean elec isE kindOf log → ∀ (u : VehicleId),
+    charged log u = charged (ofType elec (isE (kindOf u)) log) u ∧ charged (ofType elec (!isE (kindOf u)) log) u = 0
+  | [], _, _ => ⟨rfl, rfl⟩
+  | e :: es, hc, u => by
+    obtain ⟨i1, i2⟩ := charged_ofType es (fun x hx => hc x (List.mem_cons_of_mem _ hx)) u
+    have hb := hc e List.mem_cons_self
+    unfold charged ofType at *
+    cases e <;> simp only [List.map_cons, List.sum_cons, List.filter_cons] <;> try (simp only [Bool.false_eq_true, if_false, zero_add]; exact ⟨i1, i2⟩)
+    next v s c a p =>
+      by_cases hv : v = u
+      · subst hv
+        by_cases hty : elec s c = isE (kindOf v)
+        · simp [hty, i1, i2]
+        · have ha : a = 0 := by
+            by_contra hne
+            exact hb ⟨hne, hty⟩
+          have hty' : elec s c = !isE (kindOf v) := by
+            cases h1 : elec s c <;> cases h2 : isE (kindOf v) <;> simp_all
+          simp [hty, hty', ha, i1, i2]
+      · by_cases h1 : elec s c = isE (kindOf u) <;> by_cases h2 : elec s c = !isE (kindOf u) <;> simp [hv, h1, h2, i1, i2]
+
+theorem sum_filter_split (f : Nat → Rat) (p : Nat → Bool) : ∀ (ids : List Nat),
+    (ids.map f).sum = ((ids.filter p).map f).sum + ((ids.filter fun u => !p u).map f).sum
+  | [] => by simp
+  | y :: ys => by
+    have := sum_filter_split f p ys
+    cases hp : p y <;> simp [List.filter_cons, hp, this] <;> ring
+
+theorem ofType_covered {log : List Event} {vids sids : List Nat}
+    (hcov : ∀ e ∈ log, match e with | .charge v s _ _ _ => v ∈ vids ∧ s ∈ sids | _ => True) (b : Bool) :
+    ∀ e ∈ ofType elec b log, match e with | .charge v s _ _ _ => v ∈ vids ∧ s ∈ sids | _ => True := by
+  intro e he
+  exact hcov e (List.mem_filter.mp he).1
+
+/-- **C05, summed over the fleet and per energy type**: on a clean log, the energy the vehicles of
+    one energy type gained from charging is the energy the stations dispensed at plugs of that type -/
+theorem fleet_totals_typed (log : List Event) (hc : Clean elec isE kindOf log) (vids sids : List Nat)
+    (hv : vids.Nodup) (hs : sids.Nodup)
+    (hcov : ∀ e ∈ log, match e with | .charge v s _ _ _ => v ∈ vids ∧ s ∈ sids | _ => True) :
+    ((vids.filter fun u => isE (kindOf u)).map (charged log)).sum = (sids.map (dispensedE elec log)).sum ∧
+    ((vids.filter fun u => !isE (kindOf u)).map (charged log)).sum = (sids.map (dispensedG elec log)).sum := by
+  have key : ∀ b : Bool, ((vids.filter fun u => isE (kindOf u) == b).map (charged log)).sum =
+      (sids.map (dispensed (ofType elec b log))).sum := by
+    intro b
+    obtain ⟨t1, t2, _, _⟩ := fleet_totals (ofType elec b log) vids sids hv hs (ofType_covered hcov b)
+    rw [t2, ← t1, sum_filter_split (charged (ofType elec b log)) (fun u => isE (kindOf u) == b) vids]
+    have z : ((vids.filter fun u => !(isE (kindOf u) == b)).map (charged (ofType elec b log))).sum = 0 := by
+      apply List.sum_eq_zero
+      intro x hx
+      obtain ⟨u, hu, rfl⟩ := List.mem_map.mp hx
+      have hne := (List.mem_filter.mp hu).2
+      have hb : b = !isE (kindOf u) := by cases b <;> cases h2 : isE (kindOf u) <;> simp_all
+      rw [hb]
+      exact (charged_ofType log hc u).2
+    rw [z, add_zero]
+    congr 1
+    apply List.map_congr_left
+    intro u hu
+    have hb : isE (kindOf u) = b := by simpa using (List.mem_filter.mp hu).2
+    rw [← hb]
+    exact (charged_ofType log hc u).1
+  have e1 : (sids.map (dispensedE elec log)) = sids.map (dispensed (ofType elec true log)) :=
+    List.map_congr_left fun i _ => (dispensedE_ofType log i).1
+  have e2 : (sids.map (dispensedG elec log)) = sids.map (dispensed (ofType elec false log)) :=
+    List.map_congr_left fun i _ => (dispensedE_ofType log i).2
+  have f1 : (vids.filter fun u => isE (kindOf u)) = vids.filter fun u => isE (kindOf u) == true :=
+    List.filter_congr (fun u _ => by simp)
+  have f2 : (vids.filter fun u => !isE (kindOf u)) = vids.filter fun u => isE (kindOf u) == false :=
+    List.filter_congr (fun u _ => by cases isE (kindOf u) <;> rfl)
+  rw [e1, e2, ← key true, ← key false, f1, f2]
+  exact ⟨rfl, rfl⟩
+
+/-- the log of a run from an empty log is clean -/
+theorem run_clean (hte : TypeEnv env isE) (hf : ∀ c, env.inFence c = true) {w0 w : World} (hwf : w0.sim.WF)
+    (ht : Typed elec w0.sim) (hm : Meched kindOf w0.sim) (h0 : w0.log = []) (h : WReachable env w0 w) :
+    Clean elec isE kindOf w.log := by
+  obtain ⟨evs, hl, hb⟩ := (reachable_kv hte hf hwf ht hm h).right
+  rw [h0, List.nil_append] at hl
+  rw [hl]
+  exact hb
+
+end TypedTotals
+
+/-- the driver's environment: a plug of the other energy type adds nothing -/
+theorem concrete_typeEnv (o : Oracle) (mechs : List Mech) :
+    TypeEnv (o.env mechs) (fun id => match mechOf mechs id with | some m => decide (m.kind = .bev) | none => true) := by
+  intro veh cs dt hne
+  show (match mechOf mechs veh.mech with | some m => m.addEnergy veh.en cs.electric cs.rate dt | none => veh.en).level = veh.en.level
+  cases hm : mechOf mechs veh.mech with
+  | none => rfl
+  | some m =>
+    simp only [hm] at hne
+    simp only [Mech.addEnergy]
+    have : m.validCharger cs.electric = false := by
+      unfold Mech.validCharger
+      cases hk : m.kind <;> cases he : cs.electric <;> simp_all
+    simp [this]
+
+/-! ### reading the types off the initial state -/
+
+/-- the energy type of plug `c` at station `i` in `s` (`true` where there is no such plug) -/
+def elecOf (s : Sim) (i : StationId) (c : ChargerId) : Bool :=
+  match s.station? i with
+  | none => true
+  | some st => match st.plug? c with
+    | none => true
+    | some cs => cs.electric
+
+/-- the powertrain of vehicle `v` in `s` -/
+def kindIn (s : Sim) (v : VehicleId) : MechId :=
+  match s.vehicle? v with
+  | none => 0
+  | some veh => veh.mech
+
+theorem typed_init {s : Sim} (hwf : s.WF) : Typed (elecOf s) s := by
+  intro i st hst cs hcs
+  have : st.plug? cs.id = some cs := lookup_of_mem (hwf.plugs st (station?_some hst).1) hcs
+  simp [elecOf, hst, this]
+
+theorem meched_init {s : Sim} (hwf : s.WF) : Meched (kindIn s) s := by
+  intro veh hm
+  have : s.vehicle? veh.id = some veh := lookup_of_mem hwf.veh hm
+  simp [kindIn, this]
+
+/-- **C05, per vehicle and per energy type**: after any history from an empty log a vehicle's
+    energy gained is what it had plus the amounts of its charge events at plugs of its own energy
+    type; its charge events at plugs of the other type carry no energy; its powertrain is the one
+    it started with -/
+theorem run_vehicle_typed {elec : StationId → ChargerId → Bool} {isE : MechId → Bool} {kindOf : VehicleId → MechId}
+    (hg : GainEnv env) (hte : TypeEnv env isE) (hf : ∀ c, env.inFence c = true) {w0 w : World} (hwf : w0.sim.WF)
+    (ht : Typed elec w0.sim) (hm : Meched kindOf w0.sim) (h0 : w0.log = []) (h : WReachable env w0 w)
+    {v : VehicleId} {veh0 veh : Vehicle} (hv0 : w0.sim.vehicle? v = some veh0) (hv : w.sim.vehicle? v = some veh) :
+    veh.mech = veh0.mech ∧
+    veh.en.gained = veh0.en.gained + charged (ofType elec (isE veh.mech) w.log) v ∧
+    charged (ofType elec (!isE veh.mech) w.log) v = 0 := by
+  have hk := reachable_kv hte hf hwf ht hm h
+  have hc := run_clean hte hf hwf ht hm h0 h
+  have m1 : veh.mech = kindOf v := by
+    have := hk.meched veh (vehicle?_some hv).1
+    rw [(vehicle?_some hv).2] at this; exact this
+  have m0 : veh0.mech = kindOf v := by
+    have := hm veh0 (vehicle?_some hv0).1
+    rw [(vehicle?_some hv0).2] at this; exact this
+  obtain ⟨c1, c2⟩ := charged_ofType w.log hc v
+  obtain ⟨_, _, g⟩ := run_vehicle hg h h0 hv0 hv
+  rw [m1]
+  exact ⟨m0.symm, by rw [g, c1], c2⟩
 
 end Books
 end Hive
